@@ -236,29 +236,10 @@ def check_reader(rep, prog, fn):
 
     def missing_test(leaf, mvar, keyk):
         """formula atom 'missing' if leaf tests that keyk is absent from map mvar"""
-        s = leaf.strip_all()
-        if s.k == 'CXXOperatorCallExpr' and s.op in ('==', '!=') and len(s.c) == 3:
-            a, b = s.c[1].strip_all(), s.c[2].strip_all()
-            for x, y in ((a, b), (b, a)):
-                if x.k == 'CXXMemberCallExpr' and x.callee['name'] == 'find' and ex.var_of(x.object_arg()) == mvar and \
-                        x.args() and ex.key(x.args()[0]) == keyk and \
-                        y.k == 'CXXMemberCallExpr' and y.callee['name'] == 'end' and ex.var_of(y.object_arg()) == mvar:
-                    f = ex.f_atom('missing')
-                    return f if s.op == '==' else ex.f_not(f)
-        if s.k == 'CXXMemberCallExpr' and s.callee['name'] == 'count' and ex.var_of(s.object_arg()) == mvar and \
-                s.args() and ex.key(s.args()[0]) == keyk:
-            return ex.f_not(ex.f_atom('missing'))
-        if s.k == 'BinaryOperator' and s.op in ('==', '!=', '>', '<'):
-            a, b = s.c[0].strip_all(), s.c[1].strip_all()
-            for x, y, flip in ((a, b, False), (b, a, True)):
-                if x.k == 'CXXMemberCallExpr' and x.callee['name'] == 'count' and ex.var_of(x.object_arg()) == mvar and \
-                        x.args() and ex.key(x.args()[0]) == keyk and y.cv == 0:
-                    if s.op == '==':
-                        return ex.f_atom('missing')
-                    if s.op == '!=':
-                        return ex.f_not(ex.f_atom('missing'))
-                    if (s.op == '>' and not flip) or (s.op == '<' and flip):
-                        return ex.f_not(ex.f_atom('missing'))
+        m = ex.membership(leaf)
+        if m is not None and ex.var_of(m[0]) == mvar and ex.key(m[1]) == keyk:
+            f = ex.f_atom('missing')
+            return ex.f_not(f) if m[2] else f
         return None
 
     edge_region_reads = []
